@@ -156,6 +156,31 @@ struct Checker
 				double d1 = der(q, 1), r1 = (double)R.d1(seg, q);
 				if(!(std::fabs(d1 - r1) <= 2 * told1(seg))) fail(x, y, "extrapolation_d1_vs_reference", q, "D1=" + mc::dec(d1) + " reference " + mc::dec(r1));
 			}
+		// the reported derivatives are those of the *returned* curve also when the curve carries a prefactor:
+		// a power of two scales every binary64 operation exactly, so the tolerance only has to cover re-association
+		{
+			std::vector<double> base;
+			for(int j = 0; j < N - 1; j++)
+			{
+				double m = x[j] + (x[j + 1] - x[j]) * 0.375;
+				base.push_back(val(m));
+				for(unsigned o = 1; o <= 3; o++) base.push_back(der(m, o));
+			}
+			I.Set_Prefactor(-4.0);
+			size_t b = 0;
+			for(int j = 0; j < N - 1; j++)
+			{
+				double m  = x[j] + (x[j + 1] - x[j]) * 0.375;
+				double hs = (double)R.h[j];
+				double tl[4] = {tolv(j), told1(j), 4 * told1(j) / hs, 8 * told1(j) / hs / hs};
+				for(unsigned o = 0; o <= 3; o++)
+				{
+					double got = o == 0 ? val(m) : der(m, o), want = -4.0 * base[b++];
+					if(!(std::fabs(got - want) <= 8 * tl[o])) fail(x, y, "prefactor_not_applied_to_derivative" + std::to_string(o), m, "with prefactor -4: " + mc::dec(got) + ", -4 x (prefactor 1) = " + mc::dec(want));
+				}
+			}
+			I.Set_Prefactor(1.0);
+		}
 		return R.limiter_active || R.nonuniform;
 	}
 };
